@@ -98,11 +98,16 @@ def eval_doc(args):
             if sorted(derrs) != sorted(want): bad.append(('max_depth', md, derrs[:2], want[:2]))
         # default-namespace forms: the same unprefixed path string used for documents of two different default namespaces, one after the
         # other in this process (selectors are cached): each partial result must equal the restriction of that document's full result
-        for ns in ('urn:t', 'urn:u'):
-            su = s if ns == 'urn:t' else (_S.get((ver, 'u')) or _S.setdefault((ver, 'u'), _cls(ver)(SCHEMA.replace('urn:t', 'urn:u'))))
+        for ns, us in (('urn:t', False), ('urn:u', False), ('urn:u', True)):
+            # us: the global element g is spelled g_h in schema and document (an NCName with an underscore in a path under a default namespace)
+            sk = (ver, ns, us)
+            if ns == 'urn:t' and not us: su = s
+            else:
+                su = _S.get(sk) or _S.setdefault(sk, _cls(ver)((SCHEMA.replace('t:g"', 't:g_h"').replace('name="g"', 'name="g_h"') if us else SCHEMA).replace('urn:t', ns)))
             d2 = doc.replace('xmlns:t="urn:t"', f'xmlns="{ns}"').replace('<t:', '<').replace('</t:', '</')
+            if us: d2 = d2.replace('<g>', '<g_h>').replace('</g>', '</g_h>')
             full = su.decode(d2, validation='lax')
-            for upath, key in (('/r/a', 'a'), ('/r/g', 'g')):
+            for upath, key in (('/r/a', 'a'), ('/r/g_h' if us else '/r/g', 'g_h' if us else 'g')):
                 n += 1
                 part = su.decode(d2, path=upath, validation='lax', namespaces={'': ns})
                 want = full[0].get(key) if isinstance(full[0], dict) else None
